@@ -142,7 +142,8 @@ def gen_cases(rng, tier):
   raws = ['cont', 'exc', 'stop', 'timeout', 'failcont']
   k = 0
   for a1, a2, a3 in itertools.product(assigns, repeat=3):
-    for start_assign in [None, [], [('s', 0)], [('s', 2), ('t', 1)]]:
+    # (the last one: one class under two argument names)
+    for start_assign in [None, [], [('s', 0)], [('s', 2), ('t', 1)], [('s', 1), ('t', 1)]]:
       k += 1
       if tier == 'quick' and k % 4 != rng.randrange(4):
         continue
@@ -167,6 +168,17 @@ def gen_cases(rng, tier):
       elif fault == 'start_terminal':
         start_raw = r.choice(['exc', 'stop'])
       nodes = [_p(1, raw[0], a1), {'t': 'G', 's': [], 'm': [_p(2, raw[1], a2)], 'td': [_p(3, raw[2], a3)]}]
+      if fault == 'td_hang' and start_assign:
+        # the hanging tearDown belongs to test_start's plug (torn down first); another plug's tearDown takes a moment
+        hang = [c for c in spec if spec[c].get('td') == 'hang']
+        first = str(start_assign[0][1])
+        if hang and hang[0] != first:
+          spec[first]['td'], spec[hang[0]]['td'] = 'hang', 'slow'
+        else:
+          for c in spec:
+            if c != first and not spec[c]:
+              spec[c]['td'] = 'slow'
+              break
       if k % 5 == 1 and '1' in spec and '0' in spec:
         spec['1']['alias'] = 0          # class 1 is a distinct class named like class 0
       if k % 3 == 0:
